@@ -26,7 +26,7 @@ MANIFEST = dict(
     design="7/C02",
 )
 
-RULE = ("seeded tagged tables (0..45 rows, 1..4 data columns incl. padded strings, ints, floats with exponent/nan/inf forms, booleans, nulls) under every "
+RULE = ("seeded tagged tables (0..45 rows, 1..4 data columns incl. padded and blank-only strings, ints, floats with exponent/nan/inf forms, booleans, nulls) under every "
         "pagination strategy, header/footnote/source variant, text_convert on/off; plus multi-section documents; "
         "non-trivial = ≥ 2 pages; distinct by (strategy, nrow, rows per page)")
 
@@ -46,6 +46,8 @@ def mutate_cells(rng, spec, info, convert_off):
                 continue  # a long (multi-line) text stays
             if j > 0 and rng.random() < 0.12:
                 r[cj] = None
+            elif j > 0 and rng.random() < 0.06:
+                r[cj] = " " * rng.randint(1, 3)        # a cell made of blanks only is not an empty cell
             elif kind == "pad":
                 r[cj] = " " * rng.randint(1, 3) + f"r{i}c{j}" + " " * rng.randint(0, 3)
             elif kind == "int":
